@@ -295,4 +295,4 @@ def run(ctx, tier, res, tag=''):
 def main(tier, seed):
     from ..ctx import run_all_configs
     res = Result('C10', tier, 'proof', seed)
-    return run_all_configs(run, tier, res)
+    return run_all_configs(run, tier, res, strict=True)
